@@ -36,5 +36,32 @@ func Specs() map[string]*Spec {
 		},
 		Components: map[string][]string{"real": realSoy, "stub": {}, "replaced": {"Go scheduler's goroutine choice", "channel blocking (enabledness model)"}},
 	}
+	for _, f := range extraSpecs {
+		f(m)
+	}
 	return m
+}
+
+var extraSpecs []func(map[string]*Spec)
+
+func init() {
+	extraSpecs = append(extraSpecs, func(m map[string]*Spec) {
+		m["C12"] = &Spec{
+			ID: "C12", Level: "fault_enumeration", Main: "plain", Variants: []string{"plain"}, Block: 2,
+			QuickWall: 3 * time.Minute, ThoroughWall: 20 * time.Minute, BlockWall: 15 * time.Minute,
+			Nontrivial: "case",
+			Rule: "seeded generated bundles (1-4 files x 1-5 templates, all commands, directive chains, calls with data=all/data=$m/content params, msg with placeholders, html tags and plurals, globals, $ij, autoescape modes), " +
+				"each rendered per entry template and data set through a recording writer; then, exhaustively per case, one run for every write call index k of the fault-free run in three modes (sticky: calls >= k fail; transient: only call k fails; " +
+				"partial: call k accepts half its bytes and fails) and one run for every byte capacity b in 0..|output| (all b when |output| <= 1024, else all call boundaries +-1 and a seeded sample). " +
+				"Oracle: a failed write implies a non-nil error; bytes accepted up to the first failure are a prefix of the fault-free output; nil implies the whole output was accepted. " +
+				"A case is distinct by (bundle skeleton, entry template, data set, catalogue) and non-trivial if its fault-free run makes at least two write calls.",
+			Assumptions: []string{
+				"the fault-free run of the same compiled bundle is the reference output (rendering is deterministic for the generated subset: no randomInt, no keys())",
+				"runs the plain, un-instrumented build: the writer seam is part of soy's API and needs no scheduler",
+			},
+			Components: map[string][]string{"real": {"all of robfig/soy, unmodified build of the current working tree"}, "stub": {"io.Writer (fault-injecting, recording)", "soymsg.Bundle (identity / reversed / partial catalogue built from the compiled messages)"}, "replaced": {}},
+			RequireProbes: []string{"fault_landed_on_entity", "fault_landed_on_escaper-chunk", "fault_landed_on_rawtext", "fault_landed_on_value", "fault_fired_sticky", "fault_fired_transient", "fault_fired_partial", "fault_fired_capacity",
+				"fault_fired_with_catalogue", "bundle_has_css", "bundle_has_msg", "bundle_has_literal", "bundle_has_sp", "bundle_has_letc", "bundle_has_log", "bundle_has_param-content", "bundle_has_call"},
+		}
+	})
 }
